@@ -49,6 +49,21 @@ def build_corpus(tier, rng):
         Variant("D", "named", [Field("String", "s")], []),
         Variant("F", "unit", [], [props([("k", ("s", "first")), ("k", ("s", "second"))])]),
     ])))
+    # NEIGHBOURING variants whose tables look alike: the same keys in the same order with values that PRINT the same but differ in type
+    # ("1" / 1, "true" / true, "16" / 0x10), identical tables, the same table in another order, another key — each variant answers from ITS table
+    tw = [[("rank", ("s", "1"))], [("rank", ("i", 1))], [("rank", ("i", 1))], [("rank", ("s", "1"))],
+          [("flag", ("b", True)), ("a", ("s", "16"))], [("flag", ("s", "true")), ("a", ("i", 16, "0x10"))], [("a", ("i", 16)), ("flag", ("b", True))],
+          [("flag", ("b", True)), ("a", ("i", 16))], [("flag", ("b", True)), ("b", ("i", 16))], [("flag", ("b", False)), ("a", ("i", 16))],
+          [("n", ("s", "0"))], [("n", ("b", False))], [("n", ("i", 0))], [("n", ("s", "false"))], [("n", ("s", ""))], []]
+    for rot in range(3):
+        vs = []
+        for i, kv in enumerate(tw[rot * 5:] + tw[:rot * 5]):
+            kind = ["unit", "tuple", "named"][(i + rot) % 3]
+            v = Variant("T%d" % i, kind, [Field("u8")] if kind == "tuple" else ([Field("i32", "x")] if kind == "named" else []), [props(list(kv))] if kv else [])
+            vs.append(v)
+            if i % 5 == 3 and rot:
+                vs.append(Variant("Off%d" % i, "unit", [], [DISABLED, props(list(kv))] if kv else [DISABLED]))    # only a disabled variant in between
+        items.append(("neighbour-tables", Item("E", vs)))
     for _ in range(500 if thorough else 70):
         n = rng.randint(1, 8)
         vs = []
